@@ -123,6 +123,12 @@ def f4_build(kind, opts, seed=0):
             else:
                 hist.append(f4_segment('int', o, si))
         return hist
+    if kind in ('shortmid-every', 'shortmid-il-every'):
+        # the first segment stops EVERY possible number of bytes short of its last chunk (option (n, chunks, short))
+        base = 'int' if kind == 'shortmid-every' else 'il'
+        hist = [f4_segment(base, o[:2] if isinstance(o, tuple) else o, si) for si, o in enumerate(opts)]
+        hist[0]['short'] = opts[0][2]
+        return hist
     if kind in ('shortmid', 'shortmid-il'):
         # segments that are complete by their own offsets but whose raw data stops inside the last chunk - also in the middle of
         # the file ("less data than expected"); what such a chunk means is fixed by the eager read, the oracle is differential
